@@ -95,6 +95,25 @@ def rule_effect(fx, rep, search, cone):
                         return "closure"
             return None
 
+        def helper_none_without_limit(x):
+            # an Option returned by a helper of the strategy that answers None for every time control without a limit
+            r0 = deep_strip(x)
+            hb = fx.body(r0[1]) if isinstance(r0, tuple) and r0 and r0[0] == "call" and isinstance(r0[1], str) and "TimeStrategy::" in r0[1] else None
+            if hb is None:
+                return False
+            for hconds, hret, _hb in decision_paths(hb, 32):
+                hr = deep_strip(hret) if hret is not None else None
+                if hr is None or (isinstance(hr, tuple) and hr[0] == "agg" and str(hr[1]).endswith("Option::None")):
+                    continue
+                hsel = None
+                for hc, hv in hconds:
+                    hd = deep_strip(hc)
+                    if isinstance(hd, tuple) and hd and hd[0] == "discr" and pC05._self_field(hd[1]) == "time_control":
+                        hsel = pC05._selected(variants, hv)
+                if hsel is None or None in hsel or (hsel & free):
+                    return False
+            return True
+
         def option_receiver_ok(e):
             # every closure that reads the clock is handed to an Option combinator on a limit field that is None without a limit
             for c in [x for x in walk(e) if isinstance(x, tuple) and x and x[0] == "call" and isinstance(x[1], str)]:
@@ -105,21 +124,8 @@ def rule_effect(fx, rep, search, cone):
                     if f and pC05.none_without_limit(fx, f):
                         continue
                     # ... or on the Option returned by a helper of the strategy that answers None for every control without a limit
-                    r0 = deep_strip(c[2][0])
-                    hb = fx.body(r0[1]) if isinstance(r0, tuple) and r0 and r0[0] == "call" and isinstance(r0[1], str) and "TimeStrategy::" in r0[1] else None
-                    if hb is None:
+                    if not helper_none_without_limit(c[2][0]):
                         return False
-                    for hconds, hret, _hb in decision_paths(hb, 32):
-                        hr = deep_strip(hret) if hret is not None else None
-                        if hr is None or (isinstance(hr, tuple) and hr[0] == "agg" and str(hr[1]).endswith("Option::None")):
-                            continue
-                        hsel = None
-                        for hc, hv in hconds:
-                            hd = deep_strip(hc)
-                            if isinstance(hd, tuple) and hd and hd[0] == "discr" and pC05._self_field(hd[1]) == "time_control":
-                                hsel = pC05._selected(variants, hv)
-                        if hsel is None or None in hsel or (hsel & free):
-                            return False
             return True
 
         for conds, ret, _bb in paths:
@@ -138,6 +144,8 @@ def rule_effect(fx, rep, search, cone):
                     if f == "time_control":
                         sel = pC05._selected(variants, v)
                     elif f and v == 1 and pC05.none_without_limit(fx, f):
+                        some_ok = True
+                    elif not f and v == 1 and helper_none_without_limit(d[1]):
                         some_ok = True
             good = (sel is not None and None not in sel and not (sel & free)) or some_ok
             if not good and "direct" not in where:
